@@ -497,6 +497,8 @@ def fmt(n, depth=0):
         return "return %s" % fmt(n.get("e"), d)
     if k in ("sizeof", "sizeof_pack"):
         return n.get("text", "sizeof")
+    if k == "catch":
+        return "catch (%s%s)" % (n.get("type"), (" " + n["var"]) if n.get("var") else "")
     if k == "other":
         return "<%s %s>" % (n.get("cls"), n.get("text", ""))
     return "<%s>" % k
